@@ -1039,4 +1039,1242 @@ def exBlk (num : Nat) (more : Bool) : Msg :=
 def exEp : Endpoint := { szx := 0, maxSize := 64, expiration := 1000 }
 def exR : Reg := fun tok e => if tok = 7 ∧ e = none then some ⟨exBody, [(11, [99])], 2⟩ else none
 
+/-! ### what an endpoint puts on the wire -/
+
+/-- `m` is, as a whole, what an application supplied under its token and ETag (no block options on it) -/
+def WholeMsg (R : Reg) (m : Msg) : Prop :=
+  R m.tok m.etag = some ⟨m.body, m.other, m.code⟩ ∧ m.block1 = none ∧ m.block2 = none
+
+def CfgOK (cfg : Cfg) : Prop := cfg.szx ≤ 7 ∧ (cfg.szx < 7 ∨ 1024 ≤ cfg.maxSize)
+
+theorem dataBT_sendBT {c : Nat} {bt : BT} (h : dataBT c = some bt) : sendBT c = bt := by
+  unfold dataBT at h
+  split at h
+  · cases h
+  · split at h
+    · rename_i hpp; injection h with h; rw [← h]; simp [sendBT, hpp]
+    · rename_i hpp; injection h with h; rw [← h]; simp [sendBT, hpp]
+
+/-- a message without block options of its direction is `GoodMsg` for any registry -/
+theorem goodMsg_of_no_block {R : Reg} {m : Msg} (h : ∀ bt, dataBT m.code = some bt → m.block bt = none) : GoodMsg R m := by
+  intro bt hbt blk szx num more hb
+  rw [h bt hbt] at hb; cases hb
+
+/-- every block cut from a whole message is `GoodMsg` -/
+theorem createSending_good {R : Reg} {sm : Msg} {mx ms blk : Nat} {m : Msg} {more : Bool}
+    (hw : WholeMsg R sm) (hms : mx < 7 ∨ 1024 ≤ ms) (h : createSending sm mx ms blk = some (m, more)) : GoodMsg R m := by
+  obtain ⟨v, szx, num, hb, hdv, _, hsl, _, hmore, hcode, htok, hetag, hother⟩ := createSending_slice hms h
+  intro bt hbt blk' szx' num' more' hb' hdec'
+  rw [hcode] at hbt
+  have := dataBT_sendBT hbt
+  subst this
+  rw [hb] at hb'
+  injection hb' with hb'
+  subst hb'
+  rw [hdv] at hdec'
+  injection hdec' with hdec'; injection hdec' with e1 hdec'; injection hdec' with e2 e3
+  subst e1 e2 e3
+  refine ⟨⟨sm.body, sm.other, sm.code⟩, ⟨?_, hother, hcode, rfl⟩, hsl, fun hm => hmore.mp hm⟩
+  rw [htok, hetag]; exact hw.1
+
+theorem createSending_code {sm : Msg} {mx ms blk : Nat} {m : Msg} {more : Bool}
+    (h : createSending sm mx ms blk = some (m, more)) : m.code = sm.code ∧ m.tok = sm.tok := by
+  unfold createSending at h
+  split at h
+  · cases h
+  · simp only [] at h
+    obtain ⟨v, hm, _⟩ := createSendingAt_spec h
+    rw [hm]; cases hbt : sendBT sm.code <;> simp [Msg.setBlock, Msg.setSize]
+
+/-- the sending slot holds a whole message (with a property `P` of its code, used for the roles) -/
+def SndOK (R : Reg) (P : Nat → Prop) (slot : Option Entry) : Prop := ∀ e, slot = some e → WholeMsg R e.msg ∧ P e.msg.code
+
+theorem storeIfAbsent_ok {R : Reg} {P : Nat → Prop} {slot : Option Entry} {e : Entry} {now : Int}
+    (hs : SndOK R P slot) (he : WholeMsg R e.msg ∧ P e.msg.code) : SndOK R P (storeIfAbsent slot e now).1 := by
+  unfold storeIfAbsent
+  split
+  · exact hs
+  · intro x hx; injection hx with hx; subst hx; exact he
+
+/-- `startSendingMessage` on a response writer that holds nothing, a body-less answer of the layer, or a whole message -/
+theorem startSendingS_ok {R : Reg} {P : Nat → Prop} {cfg : Cfg} {snd : Option Entry} {now : Int} {w : Option Msg} {mx blk : Nat}
+    {snd' : Option Entry} {w' : Option Msg}
+    (hcfg : CfgOK cfg) (hmx : mx ≤ cfg.szx) (hsnd : SndOK R P snd)
+    (hw : ∀ m, w = some m → (m.body = [] ∧ GoodMsg R m) ∨ (WholeMsg R m ∧ P m.code))
+    (h : startSendingS cfg snd now w mx blk = .ok (snd', w')) :
+    SndOK R P snd' ∧ (∀ m', w' = some m' → GoodMsg R m') := by
+  unfold startSendingS at h
+  split at h
+  · injection h with h; injection h with h1 h2
+    subst h1 h2
+    exact ⟨hsnd, by intro m' hm'; cases hm'⟩
+  · rename_i m
+    have hm7 : mx ≤ 7 := Nat.le_trans hmx hcfg.1
+    split at h
+    · injection h with h; injection h with h1 h2
+      subst h1 h2
+      refine ⟨hsnd, ?_⟩
+      intro m' hm'; injection hm' with hm'; subst hm'
+      rcases hw m rfl with ⟨_, hg⟩ | ⟨hwm, _⟩
+      · exact hg
+      · exact goodMsg_of_no_block (by intro bt _; cases bt; exact hwm.2.1; exact hwm.2.2)
+    · rename_i hfit
+      rcases hw m rfl with ⟨hb, _⟩ | hwm
+      · exfalso
+        apply hfit
+        have hle : startDirectIsLe = false := rfl
+        have := sizeN_pos hm7
+        simp [fits, hle, hb, this]
+      · split at h
+        · cases h
+        · rename_i sm more hcs
+          have hms : mx < 7 ∨ 1024 ≤ cfg.maxSize := by
+            rcases hcfg.2 with h' | h'
+            · left; omega
+            · right; exact h'
+          have fin : ∀ (ex : Int), (if (storeIfAbsent snd ⟨m, ex⟩ now).2 = true then Except.error ()
+              else Except.ok ((storeIfAbsent snd ⟨m, ex⟩ now).1, some sm)) = (Except.ok (snd', w') : Except Unit _) →
+              SndOK R P snd' ∧ (∀ m', w' = some m' → GoodMsg R m') := by
+            intro ex h
+            split at h
+            · cases h
+            · injection h with h; injection h with h1 h2
+              subst h1 h2
+              refine ⟨storeIfAbsent_ok hsnd hwm, ?_⟩
+              intro m' hm'; injection hm' with hm'; subst hm'
+              exact createSending_good hwm.1 hms hcs
+          simp only [] at h
+          split at h <;> exact fin _ h
+
+/-- codes whose payload is not described by Block2: requests and signals -/
+def ReqCode (c : Nat) : Prop := dataBT c ≠ some .b2
+
+/-- what the application may answer: a whole message of the registry (under the token of the message it answers) -/
+def AppOK (R : Reg) (P : Nat → Prop) (app : App) : Prop :=
+  ∀ d x, app d = some x → WholeMsg R { x with tok := d.tok } ∧ P x.code
+
+theorem next_ok {R : Reg} {P : Nat → Prop} {app : App} (happ : AppOK R P app) (d : Msg) :
+    ∀ m, next app none d = some m → WholeMsg R m ∧ P m.code := by
+  intro m hm
+  unfold next at hm
+  split at hm
+  · rename_i x hx
+    injection hm with hm; subst hm
+    exact happ d x hx
+  · cases hm
+
+theorem continue_good (R : Reg) (tok v : Nat) : GoodMsg R ((continueMsg tok).setBlock .b1 v) := by
+  apply goodMsg_of_no_block
+  intro bt hbt
+  have h : dataBT codeContinue = some .b2 := by decide
+  change dataBT codeContinue = some bt at hbt
+  rw [h] at hbt; injection hbt with hbt; subst hbt; rfl
+
+theorem nextRequest_good (R : Reg) (s : Msg) (v : Nat) (hs : ReqCode s.code) : GoodMsg R ((nextRequest s).setBlock .b2 v) := by
+  apply goodMsg_of_no_block
+  intro bt hbt
+  have hc : ((nextRequest s).setBlock .b2 v).code = s.code := rfl
+  rw [hc] at hbt
+  cases bt with
+  | b1 => rfl
+  | b2 => exact absurd hbt hs
+
+/-- the answers of `blockReply` carry no body and are `GoodMsg` -/
+theorem blockReply_good {R : Reg} {bt : BT} {sent : Option Msg} {tok szx num held : Nat} {more : Bool} {m : Msg}
+    (hbt : bt = .b1 ∨ ∃ s, sent = some s ∧ ReqCode s.code)
+    (h : blockReply bt sent tok szx num held more = some m) : m.body = [] ∧ GoodMsg R m := by
+  unfold blockReply at h
+  split at h
+  · rename_i s
+    simp only [] at h
+    split at h
+    · cases h
+    · split at h
+      · cases h
+      · injection h with h; subst h
+        rcases hbt with hbt | ⟨s', hs', hq⟩
+        · cases hbt
+        · injection hs' with hs'; subst hs'
+          exact ⟨rfl, nextRequest_good R s _ hq⟩
+  · rename_i hne
+    split at h
+    · cases h
+    · injection h with h; subst h
+      rcases hbt with hbt | ⟨s', hs', _⟩
+      · subst hbt; exact ⟨rfl, continue_good R tok _⟩
+      · cases bt with
+        | b1 => exact ⟨rfl, continue_good R tok _⟩
+        | b2 => exact absurd hs' (by intro hh; exact hne s' rfl hh)
+
+/-- what `processReceivedMessage` leaves in the response writer: nothing, a body-less answer of the layer, or what
+    the application answered -/
+theorem processReceived_w {R : Reg} {P : Nat → Prop} {app : App} (happ : AppOK R P app)
+    (cfg : Cfg) (sl : Slots) (now : Int) (r : Msg) (maxSzx : Nat) (bt : BT)
+    (hq : bt = .b2 → ∀ blk szx num more, r.block2 = some blk → decodeBlock blk = .ok (szx, num, more) →
+      ∀ e, sl.snd = some e → ReqCode e.msg.code) :
+    (processReceived cfg sl now none r maxSzx app bt).sl.snd = sl.snd ∧
+    ∀ m, (processReceived cfg sl now none r maxSzx app bt).w = some m →
+      (m.body = [] ∧ GoodMsg R m) ∨ (WholeMsg R m ∧ P m.code) := by
+  have hnext : ∀ d m, next app none d = some m → (m.body = [] ∧ GoodMsg R m) ∨ (WholeMsg R m ∧ P m.code) :=
+    fun d m hm => Or.inr (next_ok happ d m hm)
+  unfold processReceived
+  simp only []
+  split
+  · exact ⟨rfl, hnext r⟩
+  split
+  · exact ⟨rfl, hnext r⟩
+  split
+  · split
+    · exact ⟨rfl, by intro m hm; cases hm⟩
+    · exact ⟨rfl, hnext r⟩
+  · rename_i blk hb
+    split
+    · exact ⟨rfl, by intro m hm; cases hm⟩
+    · rename_i szx0 num more hdec
+      split
+      · exact ⟨rfl, by intro m hm; cases hm⟩
+      · rename_i hsent
+        have hbt : bt = .b1 ∨ ∃ s, sl.snd.map (·.msg) = some s ∧ ReqCode s.code := by
+          cases bt with
+          | b1 => exact Or.inl rfl
+          | b2 =>
+            right
+            cases hs : sl.snd with
+            | none => exfalso; apply hsent; simp [hs]
+            | some e =>
+              exact ⟨e.msg, rfl, hq rfl blk szx0 num more hb hdec e hs⟩
+        split
+        · split
+          · split
+            · exact ⟨rfl, by intro m hm; cases hm⟩
+            · exact ⟨rfl, hnext r⟩
+          · split
+            · exact ⟨rfl, by intro m hm; cases hm⟩
+            · rename_i m' hbr
+              refine ⟨rfl, ?_⟩
+              intro m hm; injection hm with hm; subst hm
+              exact Or.inl (blockReply_good hbt hbr)
+        · split
+          · exact ⟨rfl, hnext _⟩
+          · split
+            · exact ⟨rfl, by intro m hm; cases hm⟩
+            · rename_i m' hbr
+              refine ⟨rfl, ?_⟩
+              intro m hm; injection hm with hm; subst hm
+              exact Or.inl (blockReply_good hbt hbr)
+theorem entityIncomplete_good (R : Reg) (tok : Nat) : GoodMsg R (entityIncomplete tok) := by
+  apply goodMsg_of_no_block
+  intro bt hbt
+  have h : dataBT codeRequestEntityIncomplete = some .b2 := by decide
+  change dataBT codeRequestEntityIncomplete = some bt at hbt
+  rw [h] at hbt; injection hbt with hbt; subst hbt; rfl
+
+theorem finishReceived_out {R : Reg} {P : Nat → Prop} {cfg : Cfg} (hcfg : CfgOK cfg) (now : Int) (h : HR) (mx blk : Nat)
+    (hmx : mx ≤ cfg.szx) (hsnd : SndOK R P h.sl.snd)
+    (hw : ∀ m, h.w = some m → (m.body = [] ∧ GoodMsg R m) ∨ (WholeMsg R m ∧ P m.code)) :
+    SndOK R P (finishReceived cfg now h mx blk).sl.snd ∧
+    ((finishReceived cfg now h mx blk).failed = false → ∀ m, (finishReceived cfg now h mx blk).w = some m → GoodMsg R m) := by
+  unfold finishReceived
+  split
+  · rename_i hf
+    exact ⟨hsnd, by intro hnf; rw [hf] at hnf; cases hnf⟩
+  · split
+    · exact ⟨hsnd, by intro hnf; cases hnf⟩
+    · rename_i snd' w' hst
+      have := startSendingS_ok hcfg hmx hsnd hw hst
+      exact ⟨this.1, fun _ => this.2⟩
+
+theorem dataBT_b2_of {c : Nat} (h1 : ¬ isSignal c = true) (h2 : ¬ (c = codeGET ∨ c = codeDELETE)) (h3 : ¬ isPostPut c = true) :
+    dataBT c = some .b2 := by
+  unfold dataBT
+  have : ¬ (isSignal c = true ∨ c = codeGET ∨ c = codeDELETE) := by
+    intro h; rcases h with h | h
+    · exact h1 h
+    · exact h2 h
+  rw [if_neg this, if_neg h3]
+
+theorem handleReceived_out {R : Reg} {P : Nat → Prop} {app : App} (happ : AppOK R P app) {cfg : Cfg} (hcfg : CfgOK cfg)
+    (sl : Slots) (now : Int) (r : Msg) (hsnd : SndOK R P sl.snd)
+    (hq : dataBT r.code = some .b2 → ∀ blk szx num more, r.block2 = some blk → decodeBlock blk = .ok (szx, num, more) →
+      ∀ e, sl.snd = some e → ReqCode e.msg.code) :
+    SndOK R P (handleReceived cfg sl now r app).sl.snd ∧
+    ((handleReceived cfg sl now r app).failed = false → ∀ m, (handleReceived cfg sl now r app).w = some m → GoodMsg R m) := by
+  have hwhole : ∀ m, WholeMsg R m → GoodMsg R m := fun m hwm =>
+    goodMsg_of_no_block (by intro bt _; cases bt; exact hwm.2.1; exact hwm.2.2)
+  unfold handleReceived
+  split
+  · exact ⟨hsnd, by intro hnf; cases hnf⟩
+  · split
+    · refine ⟨hsnd, fun _ m hm => ?_⟩
+      exact hwhole m (next_ok happ r m hm).1
+    · rename_i hsig
+      split
+      · exact finishReceived_out hcfg now _ _ _ (fitSZX_le _ _ _) hsnd (fun m hm => Or.inr (next_ok happ r m hm))
+      · rename_i hgd
+        split
+        · have hp := processReceived_w (R := R) happ cfg sl now r (fitSZX r .b1 cfg.szx) .b1 (by intro h; cases h)
+          exact finishReceived_out hcfg now _ _ _ (fitSZX_le _ _ _) (by rw [hp.1]; exact hsnd) hp.2
+        · rename_i hpp
+          have hb2 := dataBT_b2_of hsig hgd hpp
+          have hp := processReceived_w (R := R) happ cfg sl now r (fitSZX r .b2 cfg.szx) .b2 (fun _ => hq hb2)
+          exact finishReceived_out hcfg now _ _ _ (fitSZX_le _ _ _) (by rw [hp.1]; exact hsnd) hp.2
+
+/-- everything one `Handle` call puts on the wire is `GoodMsg` for the peer, and the sending slot keeps holding a whole message -/
+theorem handleS_out {R : Reg} {P : Nat → Prop} {app : App} (happ : AppOK R P app) {cfg : Cfg} (hcfg : CfgOK cfg)
+    (sl : Slots) (now : Int) (r : Msg) (hsnd : SndOK R P sl.snd)
+    (hq : dataBT r.code = some .b2 → ∀ blk szx num more, r.block2 = some blk → decodeBlock blk = .ok (szx, num, more) →
+      ∀ e, sl.snd = some e → ReqCode e.msg.code) :
+    SndOK R P (handleS cfg sl now r app).1.snd ∧ ∀ m, (handleS cfg sl now r app).2.reply = some m → GoodMsg R m := by
+  have hr := handleReceived_out happ hcfg sl now r hsnd hq
+  have hrecv : ∀ (x : Slots × Out), x = (let h := handleReceived cfg sl now r app
+      if h.failed then (h.sl, { reply := some (entityIncomplete r.tok), delivered := h.delivered, err := true })
+      else (h.sl, { reply := h.w, delivered := h.delivered })) →
+      SndOK R P x.1.snd ∧ ∀ m, x.2.reply = some m → GoodMsg R m := by
+    intro x hx
+    subst hx
+    simp only []
+    split
+    · refine ⟨hr.1, ?_⟩
+      intro m hm; injection hm with hm; subst hm
+      exact entityIncomplete_good R r.tok
+    · rename_i hf
+      exact ⟨hr.1, hr.2 (by simpa using hf)⟩
+  unfold handleS
+  simp only []
+  split
+  · exact hrecv _ rfl
+  · split
+    · exact hrecv _ rfl
+    · rename_i e hlive
+      split
+      · exact hrecv _ rfl
+      · split
+        · refine ⟨?_, ?_⟩
+          · intro x hx; simp at hx
+          · intro m hm; simp at hm
+        · rename_i sm more hcs
+          have hsome := live_some hlive
+          have hwm := (hsnd e hsome).1
+          have hms : cfg.szx < 7 ∨ 1024 ≤ cfg.maxSize := hcfg.2
+          refine ⟨?_, ?_⟩
+          · split
+            · intro x hx; simp at hx
+            · exact hsnd
+          · intro m hm; simp at hm; subst hm
+            unfold continueSendingS at hcs
+            split at hcs
+            · cases hcs
+            · rw [hsome] at hcs
+              exact createSending_good hwm hms hcs
+
+/-! ### two endpoints and the relay: the invariant of `system_safe` -/
+
+/-- a registry that only holds requests (what a client's applications supply) -/
+def RegReq (R : Reg) : Prop := ∀ tok e s, R tok e = some s → ReqCode s.code
+
+/-- a Block2 data block that is `GoodMsg` for a registry of requests does not exist -/
+theorem no_block2_data_of_regReq {R : Reg} (hreq : RegReq R) {r : Msg} (hg : GoodMsg R r) (hb2 : dataBT r.code = some .b2)
+    {blk szx num : Nat} {more : Bool} (hb : r.block2 = some blk) (hdec : decodeBlock blk = .ok (szx, num, more)) : False := by
+  obtain ⟨s, hm, _⟩ := hg .b2 hb2 blk szx num more hb hdec
+  have := hreq r.tok r.etag s hm.1
+  rw [← hm.2.2.1] at this
+  exact this hb2
+
+theorem handle_out {R : Reg} {P : Nat → Prop} {app : App} (happ : AppOK R P app) (ep : Endpoint) (hcfg : CfgOK ep.toCfg)
+    (now : Int) (r : Msg) (hsnd : ∀ tok, SndOK R P (ep.sending tok))
+    (hq : dataBT r.code = some .b2 → ∀ blk szx num more, r.block2 = some blk → decodeBlock blk = .ok (szx, num, more) →
+      ∀ e, ep.sending r.tok = some e → ReqCode e.msg.code) :
+    (∀ tok, SndOK R P ((handle ep now r app).1.sending tok)) ∧ (∀ m, (handle ep now r app).2.reply = some m → GoodMsg R m) ∧
+    (handle ep now r app).1.toCfg = ep.toCfg := by
+  have h := handleS_out happ hcfg (ep.slots r.tok) now r (hsnd r.tok) hq
+  unfold handle
+  simp only []
+  refine ⟨?_, h.2, rfl⟩
+  intro tok
+  by_cases ht : tok = r.tok
+  · subst ht; simp only [Endpoint.put, put_same]; exact h.1
+  · simp only [Endpoint.put, put_other _ _ ht]; exact hsnd tok
+
+/-- what an application of the client side may hand to `Do` / `WriteMessage` -/
+def ReqOK (R : Reg) (r : Msg) : Prop := WholeMsg R r ∧ ReqCode r.code
+
+theorem doStartS_out {R : Reg} {cfg : Cfg} (snd : Option Entry) (now : Int) (r : Msg)
+    (hr : ReqOK R r) (hsnd : SndOK R ReqCode snd) :
+    SndOK R ReqCode (doStartS cfg snd now r).1 ∧ ∀ m, (doStartS cfg snd now r).2 = some m → GoodMsg R m := by
+  have hwhole : GoodMsg R r := goodMsg_of_no_block (by intro bt _; cases bt; exact hr.1.2.1; exact hr.1.2.2)
+  have hnone : SndOK R ReqCode none := by intro e he; cases he
+  unfold doStartS
+  split
+  · exact ⟨hsnd, by intro m hm; cases hm⟩
+  split
+  · exact ⟨hsnd, by intro m hm; cases hm⟩
+  simp only []
+  have fin : ∀ (ex : Int),
+      SndOK R ReqCode (if (storeIfAbsent snd ⟨r, ex⟩ now).2 = true then (snd, (none : Option Msg)) else
+        if fits doDirectIsLe r.body.length (sizeN cfg.szx) = true then ((storeIfAbsent snd ⟨r, ex⟩ now).1, some r) else
+        if (!isPostPut r.code) = true then (none, none) else
+        if r.body.length ≥ 4294967296 then (none, none) else
+        match encodeBlock cfg.szx 0 true with
+        | .error _ => (none, none)
+        | .ok v => ((storeIfAbsent snd ⟨r, ex⟩ now).1,
+            some { r with size1 := some r.body.length, block1 := some v, body := r.body.take (bufLen cfg.szx cfg.maxSize) })).1 ∧
+      ∀ m, (if (storeIfAbsent snd ⟨r, ex⟩ now).2 = true then (snd, (none : Option Msg)) else
+        if fits doDirectIsLe r.body.length (sizeN cfg.szx) = true then ((storeIfAbsent snd ⟨r, ex⟩ now).1, some r) else
+        if (!isPostPut r.code) = true then (none, none) else
+        if r.body.length ≥ 4294967296 then (none, none) else
+        match encodeBlock cfg.szx 0 true with
+        | .error _ => (none, none)
+        | .ok v => ((storeIfAbsent snd ⟨r, ex⟩ now).1,
+            some { r with size1 := some r.body.length, block1 := some v, body := r.body.take (bufLen cfg.szx cfg.maxSize) })).2 = some m →
+        GoodMsg R m := by
+    intro ex
+    have hst := storeIfAbsent_ok (now := now) hsnd (e := ⟨r, ex⟩) ⟨hr.1, hr.2⟩
+    split
+    · exact ⟨hsnd, by intro m hm; cases hm⟩
+    split
+    · exact ⟨hst, by intro m hm; injection hm with hm; subst hm; exact hwhole⟩
+    split
+    · exact ⟨hnone, by intro m hm; cases hm⟩
+    · rename_i hpp
+      split
+      · exact ⟨hnone, by intro m hm; cases hm⟩
+      · split
+        · exact ⟨hnone, by intro m hm; cases hm⟩
+        · rename_i v he
+          refine ⟨hst, ?_⟩
+          intro m hm; injection hm with hm; subst hm
+          have hpp' : isPostPut r.code = true := by simpa using hpp
+          have hdv := Props.C19.decode_encode _ _ _ _ he
+          intro bt hbt blk szx num more hb hdec
+          change dataBT r.code = some bt at hbt
+          rw [postput_dataBT hpp'] at hbt
+          injection hbt with hbt; subst hbt
+          change some v = some blk at hb
+          injection hb with hb; subst hb
+          rw [hdv] at hdec
+          injection hdec with hdec; injection hdec with e1 hdec; injection hdec with e2 e3
+          subst e1 e2 e3
+          refine ⟨⟨r.body, r.other, r.code⟩, ⟨hr.1.1, rfl, rfl, rfl⟩, ?_, by intro h; cases h⟩
+          simp only [Int.toNat_zero, Nat.zero_mul]
+          exact ⟨Nat.zero_le _, by simpa using List.take_prefix _ _⟩
+  split <;> exact fin _
+/-- registry of the bodies being sent *to* a side -/
+def regOf (RA RB : Reg) : Side → Reg
+  | .A => RA
+  | .B => RB
+
+/-- A is the client (its applications call `Do` / `WriteMessage` with requests), B the server (its application answers) -/
+structure WInv (RA RB : Reg) (w : World) : Prop where
+  ia : EpInv RA w.a
+  ib : EpInv RB w.b
+  sa : ∀ tok, SndOK RB ReqCode (w.a.sending tok)
+  sb : ∀ tok, SndOK RA (fun _ => True) (w.b.sending tok)
+  pk : ∀ p, p ∈ w.queue ∨ p ∈ w.hist → GoodMsg (regOf RA RB p.dst) p.msg
+  ca : CfgOK w.a.toCfg
+  cb : CfgOK w.b.toCfg
+  app : AppOK RA (fun _ => True) w.appB
+
+/-- a delivery is either an arrival without data block handed on as it is, or exactly what was supplied -/
+def DeliveryOK (RA RB : Reg) : Event → Prop
+  | .deliver s d => NoData d ∨ Complete (regOf RA RB s) d.tok d
+  | _ => True
+
+theorem sndOK_put_none {R : Reg} {P : Nat → Prop} (c : Cache) (k : Nat) (h : ∀ tok, SndOK R P (c tok)) :
+    ∀ tok, SndOK R P ((c.put k none) tok) := by
+  intro tok
+  by_cases ht : tok = k
+  · subst ht; rw [put_same]; intro e he; cases he
+  · rw [put_other _ _ ht]; exact h tok
+
+theorem completeDo_inv {RA RB : Reg} {w : World} (h : WInv RA RB w) (m : Msg) :
+    WInv RA RB (completeDo w m).1 ∧ ∀ ev ∈ (completeDo w m).2, DeliveryOK RA RB ev := by
+  unfold completeDo
+  split
+  · refine ⟨{ h with sa := ?_ }, ?_⟩
+    · exact sndOK_put_none _ _ h.sa
+    · intro ev hev; simp at hev; subst hev; trivial
+  · exact ⟨h, by intro ev hev; cases hev⟩
+
+theorem completeAll_inv {RA RB : Reg} (ms : List Msg) :
+    ∀ (w : World), WInv RA RB w → WInv RA RB (completeAll w ms).1 ∧ ∀ ev ∈ (completeAll w ms).2, DeliveryOK RA RB ev := by
+  induction ms with
+  | nil => intro w h; exact ⟨h, by intro ev hev; cases hev⟩
+  | cons m ms ih =>
+    intro w h
+    have hc := completeDo_inv h m
+    have hr := ih (completeDo w m).1 hc.1
+    refine ⟨hr.1, ?_⟩
+    intro ev hev
+    simp only [completeAll, List.mem_append] at hev
+    rcases hev with hev | hev
+    · exact hc.2 ev hev
+    · exact hr.2 ev hev
+
+theorem goodMsg_onWire {R : Reg} {m : Msg} (h : GoodMsg R m) : GoodMsg R (onWire m) := h
+
+theorem completeAll_queue (ms : List Msg) : ∀ (w : World), (completeAll w ms).1.queue = w.queue ∧ (completeAll w ms).1.hist = w.hist := by
+  induction ms with
+  | nil => intro w; exact ⟨rfl, rfl⟩
+  | cons m ms ih =>
+    intro w
+    have h1 := ih (completeDo w m).1
+    have h2 : (completeDo w m).1.queue = w.queue ∧ (completeDo w m).1.hist = w.hist := by
+      unfold completeDo; split <;> exact ⟨rfl, rfl⟩
+    simp only [completeAll]
+    exact ⟨h1.1.trans h2.1, h1.2.trans h2.2⟩
+
+theorem afterDeliveries_inv {RA RB : Reg} {w : World} (h : WInv RA RB w) (s : Side) (ds : List Msg) :
+    WInv RA RB (w.afterDeliveries s ds).1 ∧ (∀ ev ∈ (w.afterDeliveries s ds).2, DeliveryOK RA RB ev) ∧
+    (w.afterDeliveries s ds).1.queue = w.queue ∧ (w.afterDeliveries s ds).1.hist = w.hist := by
+  cases s with
+  | A =>
+    have hc := completeAll_inv (RA := RA) (RB := RB) ds w h
+    have hq := completeAll_queue ds w
+    exact ⟨hc.1, hc.2, hq.1, hq.2⟩
+  | B => exact ⟨h, by intro ev hev; simp [World.afterDeliveries] at hev, rfl, rfl⟩
+
+/-- one delivery by the network keeps the invariant; what is handed to an application is exact -/
+theorem recv_inv {RA RB : Reg} (hdA : Discipline RA) (hdB : Discipline RB) (hreq : RegReq RB) {w : World} (h : WInv RA RB w)
+    (p : Packet) (hp : GoodMsg (regOf RA RB p.dst) p.msg) :
+    WInv RA RB (w.recv p).1 ∧ ∀ ev ∈ (w.recv p).2, DeliveryOK RA RB ev := by
+  obtain ⟨dst, msg⟩ := p
+  -- the endpoint step
+  have step : ∃ (w1 : World), w1 = w.setEp dst (handle (w.ep dst) w.now msg (w.appOf dst)).1 ∧ WInv RA RB w1 ∧
+      (∀ d ∈ (handle (w.ep dst) w.now msg (w.appOf dst)).2.delivered, DeliveryOK RA RB (Event.deliver dst d)) ∧
+      (∀ m, (handle (w.ep dst) w.now msg (w.appOf dst)).2.reply = some m → GoodMsg (regOf RA RB dst.other) m) := by
+    refine ⟨_, rfl, ?_⟩
+    cases dst with
+    | A =>
+      have hAppA : AppOK RB ReqCode (fun _ => none) := by intro d x hx; cases hx
+      have hi := handle_inv hdA w.a w.now msg (fun _ => none) hp h.ia
+      have ho := handle_out hAppA w.a h.ca w.now msg h.sa (fun _ _ _ _ _ _ _ e he => (h.sa msg.tok e he).2)
+      refine ⟨{ h with ia := hi.1, sa := ho.1, ca := ?_ }, ?_, ho.2.1⟩
+      · show CfgOK (handle w.a w.now msg (fun _ => none)).1.toCfg
+        rw [ho.2.2]; exact h.ca
+      · intro d hd
+        rcases hi.2 d hd with ⟨e1, e2⟩ | hc
+        · subst e1; exact Or.inl e2
+        · right
+          obtain ⟨s, c1, c2, c3, c4, c5⟩ := hc
+          exact ⟨s, by rw [c5]; exact c1, c2, c3, c4, rfl⟩
+    | B =>
+      have hi := handle_inv hdB w.b w.now msg w.appB hp h.ib
+      have ho := handle_out h.app w.b h.cb w.now msg h.sb
+        (fun hb2 blk szx num more hb hdec _ _ => (no_block2_data_of_regReq hreq hp hb2 hb hdec).elim)
+      refine ⟨{ h with ib := hi.1, sb := ho.1, cb := ?_ }, ?_, ho.2.1⟩
+      · show CfgOK (handle w.b w.now msg w.appB).1.toCfg
+        rw [ho.2.2]; exact h.cb
+      · intro d hd
+        rcases hi.2 d hd with ⟨e1, e2⟩ | hc
+        · subst e1; exact Or.inl e2
+        · right
+          obtain ⟨s, c1, c2, c3, c4, c5⟩ := hc
+          exact ⟨s, by rw [c5]; exact c1, c2, c3, c4, rfl⟩
+  obtain ⟨w1, hw1eq, hw1, hdel, hrep⟩ := step
+  -- the calls of A that this delivery completes
+  have hq1 : w1.queue = w.queue ∧ w1.hist = w.hist := by rw [hw1eq]; cases dst <;> exact ⟨rfl, rfl⟩
+  have hfin := afterDeliveries_inv (RA := RA) (RB := RB) hw1 dst (handle (w.ep dst) w.now msg (w.appOf dst)).2.delivered
+  obtain ⟨hf, hfev, hfq, hfh⟩ := hfin
+  have hevs : ∀ ev ∈ ([Event.arrive dst msg] ++ (handle (w.ep dst) w.now msg (w.appOf dst)).2.delivered.map (Event.deliver dst) ++
+      (w1.afterDeliveries dst (handle (w.ep dst) w.now msg (w.appOf dst)).2.delivered).2 ++
+      (if (handle (w.ep dst) w.now msg (w.appOf dst)).2.err then [Event.errcb dst] else [])), DeliveryOK RA RB ev := by
+    intro ev hev
+    simp only [List.mem_append, List.mem_singleton, List.mem_map] at hev
+    rcases hev with ((hev | ⟨d, hd, hev⟩) | hev) | hev
+    · subst hev; trivial
+    · subst hev; exact hdel d hd
+    · exact hfev ev hev
+    · split at hev
+      · simp at hev; subst hev; trivial
+      · cases hev
+  unfold World.recv
+  simp only [← hw1eq]
+  split
+  · rename_i m hm
+    refine ⟨{ hf with pk := ?_ }, ?_⟩
+    · intro q hq
+      simp only [World.enqueue, List.mem_append, List.mem_singleton] at hq
+      rcases hq with (hq | hq) | hq
+      · exact h.pk q (Or.inl (by rw [← hq1.1, ← hfq]; exact hq))
+      · subst hq; exact goodMsg_onWire (hrep m hm)
+      · exact h.pk q (Or.inr (by rw [← hq1.2, ← hfh]; exact hq))
+    · intro ev hev
+      simp only [List.mem_append, List.mem_singleton] at hev
+      rcases hev with hev | hev
+      · exact hevs ev (by simp only [List.mem_append, List.mem_singleton]; exact hev)
+      · subst hev; trivial
+  · refine ⟨hf, ?_⟩
+    intro ev hev
+    exact hevs ev hev
+
+
+theorem winv_of_fields {RA RB : Reg} {w w' : World} (h : WInv RA RB w) (ha : w'.a = w.a) (hb : w'.b = w.b) (happ : w'.appB = w.appB)
+    (hpk : ∀ p, p ∈ w'.queue ∨ p ∈ w'.hist → p ∈ w.queue ∨ p ∈ w.hist) : WInv RA RB w' :=
+  { ia := by rw [ha]; exact h.ia, ib := by rw [hb]; exact h.ib, sa := by rw [ha]; exact h.sa, sb := by rw [hb]; exact h.sb,
+    pk := fun p hp => h.pk p (hpk p hp), ca := by rw [ha]; exact h.ca, cb := by rw [hb]; exact h.cb, app := by rw [happ]; exact h.app }
+
+theorem fault_inv {RA RB : Reg} (hdA : Discipline RA) (hdB : Discipline RB) (hreq : RegReq RB) {w : World} (h : WInv RA RB w) (f : Fault) :
+    WInv RA RB (w.fault f).1 ∧ ∀ ev ∈ (w.fault f).2, DeliveryOK RA RB ev := by
+  have hnil : ∀ ev ∈ ([] : List Event), DeliveryOK RA RB ev := by intro ev hev; cases hev
+  cases f with
+  | deliver =>
+    simp only [World.fault]
+    cases hq : w.queue with
+    | nil => exact ⟨h, hnil⟩
+    | cons p q =>
+      simp only []
+      have hw' : WInv RA RB { w with queue := q, hist := w.hist ++ [p] } :=
+        winv_of_fields h rfl rfl rfl (by
+          intro x hx
+          simp only [List.mem_append, List.mem_singleton] at hx
+          rcases hx with hx | hx | hx
+          · left; rw [hq]; exact List.mem_cons_of_mem _ hx
+          · right; exact hx
+          · left; rw [hq, hx]; exact List.mem_cons_self)
+      exact recv_inv hdA hdB hreq hw' p (h.pk p (Or.inl (by rw [hq]; exact List.mem_cons_self)))
+  | dup =>
+    simp only [World.fault]
+    cases hq : w.queue with
+    | nil => exact ⟨h, hnil⟩
+    | cons p q =>
+      simp only []
+      have hw' : WInv RA RB { w with queue := p :: q, hist := w.hist ++ [p] } :=
+        winv_of_fields h rfl rfl rfl (by
+          intro x hx
+          simp only [List.mem_append, List.mem_singleton] at hx
+          rcases hx with hx | hx | hx
+          · left; rw [hq]; exact hx
+          · right; exact hx
+          · left; rw [hq, hx]; exact List.mem_cons_self)
+      exact recv_inv hdA hdB hreq hw' p (h.pk p (Or.inl (by rw [hq]; exact List.mem_cons_self)))
+  | drop =>
+    simp only [World.fault]
+    cases hq : w.queue with
+    | nil => exact ⟨h, hnil⟩
+    | cons p q =>
+      refine ⟨winv_of_fields h rfl rfl rfl ?_, hnil⟩
+      intro x hx
+      simp only [List.mem_append, List.mem_singleton] at hx
+      rcases hx with hx | hx | hx
+      · left; rw [hq]; exact List.mem_cons_of_mem _ hx
+      · right; exact hx
+      · left; rw [hq, hx]; exact List.mem_cons_self
+  | swap =>
+    simp only [World.fault]
+    cases hq : w.queue with
+    | nil => exact ⟨h, hnil⟩
+    | cons p q1 =>
+      cases q1 with
+      | nil => exact ⟨h, hnil⟩
+      | cons p' q =>
+        refine ⟨winv_of_fields h rfl rfl rfl ?_, hnil⟩
+        intro x hx
+        rcases hx with hx | hx
+        · left
+          rw [hq]
+          simp only [List.mem_cons] at hx ⊢
+          rcases hx with hx | hx | hx
+          · exact Or.inr (Or.inl hx)
+          · exact Or.inl hx
+          · exact Or.inr (Or.inr hx)
+        · right; exact hx
+  | replay k =>
+    simp only [World.fault]
+    cases hk : w.hist[k]? with
+    | none => exact ⟨h, hnil⟩
+    | some p => exact recv_inv hdA hdB hreq h p (h.pk p (Or.inr (List.mem_of_getElem? hk)))
+
+theorem sweep_sending (ep : Endpoint) (now : Int) (k : Nat) :
+    (sweep ep now).sending k = none ∨ (sweep ep now).sending k = ep.sending k := by
+  simp only [sweep, sweepSlots, Endpoint.slots]
+  cases hr : ep.receiving k with
+  | none =>
+    simp only
+    cases hs : ep.sending k with
+    | none => left; rfl
+    | some e => simp only [live]; split <;> simp
+  | some x =>
+    simp only
+    split
+    · left; rfl
+    · cases hs : ep.sending k with
+      | none => left; rfl
+      | some e => simp only [live]; split <;> simp
+
+theorem sndOK_sweep {R : Reg} {P : Nat → Prop} (ep : Endpoint) (now : Int) (h : ∀ tok, SndOK R P (ep.sending tok)) :
+    ∀ tok, SndOK R P ((sweep ep now).sending tok) := by
+  intro tok e he
+  rcases sweep_sending ep now tok with hs | hs
+  · rw [hs] at he; cases he
+  · rw [hs] at he; exact h tok e he
+
+theorem op_inv {RA RB : Reg} (hdA : Discipline RA) (hdB : Discipline RB) (hreq : RegReq RB) {w : World} (h : WInv RA RB w) (o : Op)
+    (ho : ∀ r, (o = .doReq r ∨ o = .writeReq r) → ReqOK RB r) :
+    WInv RA RB (w.op o).1 ∧ ∀ ev ∈ (w.op o).2, DeliveryOK RA RB ev := by
+  have hnotdel : ∀ (evs : List Event), (∀ ev ∈ evs, ∀ s d, ev ≠ Event.deliver s d) → ∀ ev ∈ evs, DeliveryOK RA RB ev := by
+    intro evs hne ev hev
+    cases ev with
+    | deliver s d => exact absurd rfl (hne _ hev s d)
+    | _ => trivial
+  cases o with
+  | fault f => exact fault_inv hdA hdB hreq h f
+  | tick s =>
+    refine ⟨?_, by intro ev hev; cases hev⟩
+    cases s with
+    | A => exact { h with ia := sweep_inv w.a w.now h.ia, sa := sndOK_sweep w.a w.now h.sa, ca := h.ca }
+    | B => exact { h with ib := sweep_inv w.b w.now h.ib, sb := sndOK_sweep w.b w.now h.sb, cb := h.cb }
+  | sleep d =>
+    have hfold : ∀ (ps : List Pending) (a : Endpoint), (∀ tok, SndOK RB ReqCode (a.sending tok)) → EpInv RA a → CfgOK a.toCfg →
+        (∀ tok, SndOK RB ReqCode ((ps.foldl (fun a p => doFinish a p.tok) a).sending tok)) ∧ EpInv RA (ps.foldl (fun a p => doFinish a p.tok) a) ∧
+        CfgOK (ps.foldl (fun a p => doFinish a p.tok) a).toCfg := by
+      intro ps
+      induction ps with
+      | nil => intro a h1 h2 h3; exact ⟨h1, h2, h3⟩
+      | cons p ps ih =>
+        intro a h1 h2 h3
+        exact ih (doFinish a p.tok) (sndOK_put_none _ _ h1) h2 h3
+    have hf := hfold (w.pending.filter (fun p => match p.deadline with | some t => decide (t ≤ w.now + d) | none => false)) w.a h.sa h.ia h.ca
+    refine ⟨{ h with ia := hf.2.1, sa := hf.1, ca := hf.2.2 }, ?_⟩
+    apply hnotdel
+    intro ev hev s dd
+    simp only [World.op, World.sleep, List.mem_map] at hev
+    obtain ⟨p, _, hp⟩ := hev
+    rw [← hp]; intro hc; cases hc
+  | doReq r =>
+    have hr := ho r (Or.inl rfl)
+    have hd := doStartS_out (cfg := w.a.toCfg) (w.a.sending r.tok) w.now r hr (h.sa r.tok)
+    simp only [World.op, World.startDo, doStart]
+    have hsa : ∀ tok, SndOK RB ReqCode ((w.a.sending.put r.tok (doStartS w.a.toCfg (w.a.sending r.tok) w.now r).1) tok) := by
+      intro tok
+      by_cases ht : tok = r.tok
+      · subst ht; rw [put_same]; exact hd.1
+      · rw [put_other _ _ ht]; exact h.sa tok
+    split
+    · rename_i a' m heq
+      injection heq with h1 h2
+      subst h1
+      refine ⟨{ h with sa := hsa, ca := h.ca, pk := ?_ }, ?_⟩
+      · intro q hq
+        simp only [List.mem_append, List.mem_singleton] at hq
+        rcases hq with (hq | hq) | hq
+        · exact h.pk q (Or.inl hq)
+        · subst hq; exact goodMsg_onWire (hd.2 m h2)
+        · exact h.pk q (Or.inr hq)
+      · apply hnotdel
+        intro ev hev s dd
+        simp only [List.mem_singleton] at hev
+        rw [hev]; intro hc; cases hc
+    · rename_i a' heq
+      injection heq with h1 h2
+      subst h1
+      refine ⟨{ h with sa := hsa, ca := h.ca }, ?_⟩
+      apply hnotdel
+      intro ev hev s dd
+      simp only [List.mem_singleton] at hev
+      rw [hev]; intro hc; cases hc
+  | writeReq r =>
+    have hr := ho r (Or.inr rfl)
+    simp only [World.op, World.startWrite, World.ep, writeMessage]
+    split
+    · rename_i e' m heq
+      split at heq
+      · cases heq
+      · rename_i blk _
+        split at heq
+        · cases heq
+        · rename_i snd' w' hst
+          injection heq with h1 h2
+          subst h1 h2
+          have hs := startSendingS_ok h.ca (Nat.le_refl _) (h.sa r.tok)
+            (fun m hm => by injection hm with hm; subst hm; exact Or.inr ⟨hr.1, hr.2⟩) hst
+          have hsa : ∀ tok, SndOK RB ReqCode ((w.a.sending.put r.tok snd') tok) := by
+            intro tok
+            by_cases ht : tok = r.tok
+            · subst ht; rw [put_same]; exact hs.1
+            · rw [put_other _ _ ht]; exact h.sa tok
+          refine ⟨?_, ?_⟩
+          · refine { ia := h.ia, ib := h.ib, sa := hsa, sb := h.sb, ca := h.ca, cb := h.cb, app := h.app, pk := ?_ }
+            intro q hq
+            simp only [World.setEp, List.mem_append, List.mem_singleton] at hq
+            rcases hq with (hq | hq) | hq
+            · exact h.pk q (Or.inl hq)
+            · subst hq; exact goodMsg_onWire (hs.2 m rfl)
+            · exact h.pk q (Or.inr hq)
+          · apply hnotdel
+            intro ev hev s dd
+            simp only [List.mem_cons] at hev
+            rcases hev with hev | hev | hev
+            · rw [hev]; intro hc; cases hc
+            · rw [hev]; intro hc; cases hc
+            · cases hev
+    · rename_i e' heq
+      refine ⟨?_, ?_⟩
+      · split at heq
+        · injection heq with h1 _; subst h1
+          exact { ia := h.ia, ib := h.ib, sa := h.sa, sb := h.sb, ca := h.ca, cb := h.cb, app := h.app, pk := h.pk }
+        · split at heq
+          · injection heq with h1 _; subst h1
+            exact { ia := h.ia, ib := h.ib, sa := h.sa, sb := h.sb, ca := h.ca, cb := h.cb, app := h.app, pk := h.pk }
+          · rename_i snd' w' hst
+            injection heq with h1 h2
+            subst h1
+            have hs := startSendingS_ok h.ca (Nat.le_refl _) (h.sa r.tok)
+              (fun m hm => by injection hm with hm; subst hm; exact Or.inr ⟨hr.1, hr.2⟩) hst
+            have hsa : ∀ tok, SndOK RB ReqCode ((w.a.sending.put r.tok snd') tok) := by
+              intro tok
+              by_cases ht : tok = r.tok
+              · subst ht; rw [put_same]; exact hs.1
+              · rw [put_other _ _ ht]; exact h.sa tok
+            exact { ia := h.ia, ib := h.ib, sa := hsa, sb := h.sb, ca := h.ca, cb := h.cb, app := h.app, pk := h.pk }
+      · apply hnotdel
+        intro ev hev s dd
+        simp only [List.mem_singleton] at hev
+        rw [hev]; intro hc; cases hc
+
+/-- induction over an arbitrary script: relay faults, calls of the client's application, time, sweeps -/
+theorem world_run_inv {RA RB : Reg} (hdA : Discipline RA) (hdB : Discipline RB) (hreq : RegReq RB) (ops : List Op) :
+    ∀ (w : World), WInv RA RB w → (∀ r, (Op.doReq r ∈ ops ∨ Op.writeReq r ∈ ops) → ReqOK RB r) →
+    WInv RA RB (World.run w ops).1 ∧ ∀ ev ∈ (World.run w ops).2, DeliveryOK RA RB ev := by
+  induction ops with
+  | nil => intro w h _; exact ⟨h, by intro ev hev; cases hev⟩
+  | cons o os ih =>
+    intro w h ho
+    have h1 := op_inv hdA hdB hreq h o (by
+      intro r hr
+      rcases hr with hr | hr
+      · exact ho r (Or.inl (by rw [hr]; exact List.mem_cons_self))
+      · exact ho r (Or.inr (by rw [hr]; exact List.mem_cons_self)))
+    have h2 := ih (w.op o).1 h1.1 (by
+      intro r hr
+      rcases hr with hr | hr
+      · exact ho r (Or.inl (List.mem_cons_of_mem _ hr))
+      · exact ho r (Or.inr (List.mem_cons_of_mem _ hr)))
+    refine ⟨h2.1, ?_⟩
+    intro ev hev
+    simp only [World.run, List.mem_append] at hev
+    rcases hev with hev | hev
+    · exact h1.2 ev hev
+    · exact h2.2 ev hev
+
+
+
+/-! ### a two-endpoint instance for the non-vacuity examples of `system_safe` -/
+
+def exRespBody : Bytes := (List.range 40).map (fun i => UInt8.ofNat (200 - i))
+/-- B's application answers a POST under token 7 with 40 bytes -/
+def exApp : App := fun d => if d.code = 2 ∧ d.tok = 7 then some { code := 68, tok := 7, other := [(12, [42])], body := exRespBody } else none
+def exReq : Msg := { code := 2, tok := 7, other := [(11, [99])], body := exBody }
+def exRA : Reg := fun tok e => if tok = 7 ∧ e = none then some ⟨exRespBody, [(12, [42])], 68⟩ else none
+def exWorld : World := { a := { szx := 0, maxSize := 64, expiration := 1000 }, b := { szx := 0, maxSize := 64, expiration := 1000 }, appB := exApp }
+/-- what the two applications were handed: (side is A, code, length of the body, body is the supplied one) -/
+def exDeliveries (evs : List Event) : List (Bool × Nat × Nat × Bool) :=
+  evs.filterMap (fun e => match e with
+    | .deliver s d => some (s == .A, d.code, d.body.length, d.body == exBody || d.body == exRespBody)
+    | _ => none)
+
+/-! ### fault-free progress, one round at a time -/
+
+/-- raw option value of the block (szx, num, more) -/
+def blkVal (szx num : Nat) (more : Bool) : Nat := num * 16 + (if more then 8 else 0) + szx
+
+theorem encode_blkVal {szx num : Nat} (more : Bool) (hs : szx ≤ 7) (hn : num < 2 ^ 20) :
+    encodeBlock szx (num : Int) more = .ok (blkVal szx num more) := by
+  rw [Props.C19.encode_total szx (num : Int) more hs (by omega) (by omega)]
+  simp [blkVal]
+
+theorem decode_blkVal {szx num : Nat} (more : Bool) (hs : szx ≤ 7) (hn : num < 2 ^ 20) :
+    decodeBlock (blkVal szx num more) = .ok (szx, num, more) := by
+  have := Props.C19.decode_encode szx (num : Int) more _ (encode_blkVal more hs hn)
+  simpa using this
+
+/-- block `j` of the upload of `r` with exponent `s` (as `createSendingMessage` cuts it) -/
+def uploadBlock (r : Msg) (s ms j : Nat) : Msg :=
+  { r with size1 := some r.body.length,
+           block1 := some (blkVal s j (decide (j * sizeN s + ((r.body.drop (j * sizeN s)).take (bufLen s ms)).length ≠ r.body.length))),
+           body := (r.body.drop (j * sizeN s)).take (bufLen s ms) }
+
+/-- the 2.31 that acknowledges block `k` -/
+def uploadAck (tok s k : Nat) : Msg := (continueMsg tok).setBlock .b1 (blkVal s k true)
+
+/-- **sender round.** While the request is cached, the acknowledgement of block `k` makes the sender emit block `k+1`,
+    an aligned slice that is flagged `more` iff it does not end the body; its caches do not change. -/
+theorem sender_round (cfg : Cfg) (r : Msg) (exp now : Int) (rcv : Option Entry) (app : App) (k : Nat)
+    (hs : cfg.szx < 7) (hpp : isPostPut r.code = true) (htok : r.tok ≠ 0) (hlive : now ≤ exp)
+    (hk : (k + 1) * sizeN cfg.szx ≤ r.body.length) (hlen : r.body.length < 4294967296) (hnum : k + 1 < 2 ^ 20) :
+    handleS cfg ⟨some ⟨r, exp⟩, rcv⟩ now (uploadAck r.tok cfg.szx k) app =
+      (⟨some ⟨r, exp⟩, rcv⟩, { reply := some (uploadBlock r cfg.szx cfg.maxSize (k + 1)) }) := by
+  have hs7 : cfg.szx ≤ 7 := by omega
+  have hsz := sizeN_pos hs7
+  have hbuf : bufLen cfg.szx cfg.maxSize = sizeN cfg.szx := bufLen_small _ hs
+  have hlv : live (some ⟨r, exp⟩) now = some ⟨r, exp⟩ := live_fresh _ _ hlive
+  have hw : wantsToBeReceived (uploadAck r.tok cfg.szx k) = false := by
+    simp [wantsToBeReceived, uploadAck, continueMsg, Msg.setBlock, isPostPut, isRequest]
+    decide
+  have htok' : (uploadAck r.tok cfg.szx k).tok = r.tok := rfl
+  have hsend : sendBT r.code = .b1 := postput_sendBT hpp
+  have hcode : r.code > codeDELETE ↔ False := by
+    have : r.code = codePOST ∨ r.code = codePUT := by simpa [isPostPut] using hpp
+    rcases this with h | h <;> rw [h] <;> decide
+  have hskip : block1SkipsSent = true := rfl
+  have hoff : sendOff .b1 cfg.szx k (sizeN cfg.szx) = (k + 1) * sizeN cfg.szx := by
+    simp [sendOff, hskip, Nat.add_mul]
+  have hcs : createSending r cfg.szx cfg.maxSize (blkVal cfg.szx k true) =
+      some (uploadBlock r cfg.szx cfg.maxSize (k + 1),
+        decide ((k + 1) * sizeN cfg.szx + ((r.body.drop ((k + 1) * sizeN cfg.szx)).take (sizeN cfg.szx)).length ≠ r.body.length)) := by
+    unfold createSending
+    rw [decode_blkVal true hs7 (by omega)]
+    simp only [getSzx_eq_min, Nat.min_self, hsend, hbuf, hoff]
+    unfold createSendingAt
+    have e1 : ¬ (sizeN cfg.szx > 0 ∧ (k + 1) * sizeN cfg.szx > r.body.length) := by omega
+    have e2 : ¬ r.body.length ≥ 4294967296 := by omega
+    rw [if_neg e1, if_neg e2]
+    simp only [Nat.mul_div_cancel _ hsz]
+    rw [encode_blkVal _ hs7 hnum]
+    simp [uploadBlock, Msg.setSize, Msg.setBlock, hbuf]
+  have hblk : (uploadAck r.tok cfg.szx k).block .b1 = some (blkVal cfg.szx k true) := rfl
+  unfold handleS
+  simp only []
+  split
+  · rename_i h0; exact absurd h0 htok
+  · split
+    · rename_i hl; rw [hlv] at hl; cases hl
+    · rename_i e hl
+      rw [hlv] at hl
+      injection hl with hl
+      subst hl
+      split
+      · rename_i hwr; rw [hw] at hwr; cases hwr
+      · have hc : continueSendingS cfg (some ⟨r, exp⟩) (uploadAck r.tok cfg.szx k) r.code =
+            some (uploadBlock r cfg.szx cfg.maxSize (k + 1),
+              decide ((k + 1) * sizeN cfg.szx + ((r.body.drop ((k + 1) * sizeN cfg.szx)).take (sizeN cfg.szx)).length ≠ r.body.length)) := by
+          unfold continueSendingS
+          rw [hsend, hblk]
+          exact hcs
+        split
+        · rename_i hn; rw [hc] at hn; cases hn
+        · rename_i sm more hsome
+          rw [hc] at hsome
+          injection hsome with hsome
+          injection hsome with h1 h2
+          subst h1
+          have : ¬ (more = false ∧ r.code > codeDELETE) := fun hh => hcode.mp hh.2
+          rw [if_neg this]
+theorem uploadBlock_fields (r : Msg) (s ms j : Nat) :
+    (uploadBlock r s ms j).tok = r.tok ∧ (uploadBlock r s ms j).code = r.code ∧ (uploadBlock r s ms j).etag = r.etag ∧
+    (uploadBlock r s ms j).block2 = r.block2 := ⟨rfl, rfl, rfl, rfl⟩
+
+/-- **receiver round.** The receiver holds exactly the first `k` blocks (an unexpired entry with the request's ETag);
+    block `k` arrives.  If it does not end the body it is appended and acknowledged with 2.31 carrying the same
+    number; if it ends the body the entry is removed and the application is handed the complete body, with the
+    entry's options minus Block1/Size1. -/
+theorem receiver_round (cfg : Cfg) (r : Msg) (ent : Entry) (now : Int) (app : App) (ms k : Nat)
+    (hs : cfg.szx < 7) (hpp : isPostPut r.code = true) (htok : r.tok ≠ 0) (hlive : now ≤ ent.validUntil)
+    (hheld : ent.msg.body = r.body.take (k * sizeN cfg.szx)) (hk : k * sizeN cfg.szx ≤ r.body.length)
+    (hetag : ent.msg.etag = r.etag) (hnum : k < 2 ^ 20) :
+    ((k + 1) * sizeN cfg.szx < r.body.length →
+      handleS cfg ⟨none, some ent⟩ now (uploadBlock r cfg.szx ms k) app =
+        (⟨none, some ⟨{ ent.msg with body := r.body.take ((k + 1) * sizeN cfg.szx) }, ent.validUntil⟩⟩,
+         { reply := some (uploadAck r.tok cfg.szx k) })) ∧
+    (r.body.length ≤ (k + 1) * sizeN cfg.szx →
+      (handleS cfg ⟨none, some ent⟩ now (uploadBlock r cfg.szx ms k) app).1.rcv = none ∧
+      (handleS cfg ⟨none, some ent⟩ now (uploadBlock r cfg.szx ms k) app).2.delivered =
+        [{ ent.msg with body := r.body, block1 := none, size1 := none }]) := by
+  have hs7 : cfg.szx ≤ 7 := by omega
+  have hsz := sizeN_pos hs7
+  have hbuf : bufLen cfg.szx ms = sizeN cfg.szx := bufLen_small _ hs
+  obtain ⟨f1, f2, f3, _⟩ := uploadBlock_fields r cfg.szx ms k
+  have hcode : r.code = codePOST ∨ r.code = codePUT := by simpa [isPostPut] using hpp
+  have hsig : isSignal r.code = false := by rcases hcode with h | h <;> rw [h] <;> decide
+  have hgd : ¬ (r.code = codeGET ∨ r.code = codeDELETE) := by
+    rcases hcode with h | h <;> rw [h] <;> decide
+  have hpaylen : ((r.body.drop (k * sizeN cfg.szx)).take (sizeN cfg.szx)).length = min (sizeN cfg.szx) (r.body.length - k * sizeN cfg.szx) := by
+    simp
+  -- the shape of `handleS` on this input: the receive path with `processReceived … .b1`
+  have hshape : handleS cfg ⟨none, some ent⟩ now (uploadBlock r cfg.szx ms k) app =
+      (let h := finishReceived cfg now (processReceived cfg ⟨none, some ent⟩ now none (uploadBlock r cfg.szx ms k)
+          (fitSZX (uploadBlock r cfg.szx ms k) .b1 cfg.szx) app .b1) (fitSZX (uploadBlock r cfg.szx ms k) .b1 cfg.szx) (blkVal cfg.szx 0 true)
+       if h.failed then (h.sl, { reply := some (entityIncomplete r.tok), delivered := h.delivered, err := true })
+       else (h.sl, { reply := h.w, delivered := h.delivered })) := by
+    unfold handleS
+    simp only [f1, if_neg htok, live]
+    unfold handleReceived
+    have he : encodeBlock cfg.szx 0 true = .ok (blkVal cfg.szx 0 true) := encode_blkVal true hs7 (by decide)
+    simp only [he, f2, hsig, Bool.false_eq_true, if_false, if_neg hgd, hpp, if_true]
+  have hdecode : decodeBlock (blkVal cfg.szx k (decide (k * sizeN cfg.szx + ((r.body.drop (k * sizeN cfg.szx)).take (bufLen cfg.szx ms)).length ≠ r.body.length))) =
+      .ok (cfg.szx, k, decide (k * sizeN cfg.szx + ((r.body.drop (k * sizeN cfg.szx)).take (bufLen cfg.szx ms)).length ≠ r.body.length)) :=
+    decode_blkVal _ hs7 hnum
+  have hfit : fitSZX (uploadBlock r cfg.szx ms k) .b1 cfg.szx = cfg.szx := by
+    rw [fitSZX_some (v := blkVal cfg.szx k _) cfg.szx rfl hdecode]; omega
+  have hlv : live (some ent) now = some ent := live_fresh _ _ hlive
+  have hap : applyEtag (uploadBlock r cfg.szx ms k) ent.msg = ent.msg := by
+    rcases applyEtag_cases (uploadBlock r cfg.szx ms k) ent.msg with ⟨h, _⟩ | ⟨_, hne, _⟩
+    · exact h
+    · exact absurd (by rw [f3, hetag]) hne
+  have hlen : ent.msg.body.length = k * sizeN cfg.szx := by rw [hheld, List.length_take]; omega
+  have habs : absorb (uploadBlock r cfg.szx ms k) ent.msg (k * sizeN cfg.szx) =
+      ({ ent.msg with body := r.body.take ((k + 1) * sizeN cfg.szx) }, true) := by
+    unfold absorb
+    simp only [hap, hlen, if_true]
+    have : ent.msg.body ++ (uploadBlock r cfg.szx ms k).body = r.body.take ((k + 1) * sizeN cfg.szx) := by
+      rw [hheld, Nat.add_mul, Nat.one_mul, List.take_add]
+      simp [uploadBlock, hbuf]
+    rw [this]
+  constructor
+  · intro hmore
+    have hm : decide (k * sizeN cfg.szx + ((r.body.drop (k * sizeN cfg.szx)).take (bufLen cfg.szx ms)).length ≠ r.body.length) = true := by
+      rw [hbuf, hpaylen]; simp; rw [Nat.add_mul] at hmore; omega
+    have hblk : (uploadBlock r cfg.szx ms k).block .b1 = some (blkVal cfg.szx k true) := by
+      show some (blkVal cfg.szx k (decide (k * sizeN cfg.szx + ((r.body.drop (k * sizeN cfg.szx)).take (bufLen cfg.szx ms)).length ≠ r.body.length))) = _
+      rw [hm]
+    have hpr : processReceived cfg ⟨none, some ent⟩ now none (uploadBlock r cfg.szx ms k) cfg.szx app .b1 =
+        { sl := ⟨none, some ⟨{ ent.msg with body := r.body.take ((k + 1) * sizeN cfg.szx) }, ent.validUntil⟩⟩,
+          w := some (uploadAck r.tok cfg.szx k) } := by
+      unfold processReceived
+      simp only [f1, if_neg htok, f2, if_neg hgd, hblk, decode_blkVal true hs7 hnum, hlv, habs]
+      have hnb : ¬ (BT.b1 = BT.b2 ∧ (Option.map (fun x => x.msg) (none : Option Entry)).isNone = true) := by
+        intro h; cases h.1
+      rw [if_neg hnb]
+      simp only [Bool.true_eq_false, and_false, if_false, getSzx_eq_min, Nat.min_self]
+      unfold blockReply
+      simp only []
+      rw [encode_blkVal true hs7 hnum]
+      rfl
+    rw [hshape, hfit, hpr]
+    unfold finishReceived
+    simp only [Bool.false_eq_true, if_false]
+    unfold startSendingS
+    have hfits : fits startDirectIsLe (uploadAck r.tok cfg.szx k).body.length (sizeN cfg.szx) = true := by
+      have hle : startDirectIsLe = false := rfl
+      simp [fits, hle, uploadAck, continueMsg, Msg.setBlock, hsz]
+    simp only [hfits, if_true, Bool.false_eq_true, if_false]
+  · intro hlast
+    have hm : decide (k * sizeN cfg.szx + ((r.body.drop (k * sizeN cfg.szx)).take (bufLen cfg.szx ms)).length ≠ r.body.length) = false := by
+      rw [hbuf, hpaylen]; simp; rw [Nat.add_mul] at hlast; omega
+    have hblk : (uploadBlock r cfg.szx ms k).block .b1 = some (blkVal cfg.szx k false) := by
+      show some (blkVal cfg.szx k (decide (k * sizeN cfg.szx + ((r.body.drop (k * sizeN cfg.szx)).take (bufLen cfg.szx ms)).length ≠ r.body.length))) = _
+      rw [hm]
+    have htake : r.body.take ((k + 1) * sizeN cfg.szx) = r.body := List.take_of_length_le hlast
+    have hpr : (processReceived cfg ⟨none, some ent⟩ now none (uploadBlock r cfg.szx ms k) cfg.szx app .b1).sl.rcv = none ∧
+        (processReceived cfg ⟨none, some ent⟩ now none (uploadBlock r cfg.szx ms k) cfg.szx app .b1).delivered =
+          [{ ent.msg with body := r.body, block1 := none, size1 := none }] := by
+      unfold processReceived
+      simp only [f1, if_neg htok, f2, if_neg hgd, hblk, decode_blkVal false hs7 hnum, hlv, habs]
+      have hnb : ¬ (BT.b1 = BT.b2 ∧ (Option.map (fun x => x.msg) (none : Option Entry)).isNone = true) := by
+        intro h; cases h.1
+      rw [if_neg hnb]
+      simp only [and_self, if_true, htake]
+      simp [Msg.removeBlockSize]
+    rw [hshape, hfit]
+    have hfin := finishReceived_rcv cfg now (processReceived cfg ⟨none, some ent⟩ now none (uploadBlock r cfg.szx ms k) cfg.szx app .b1)
+      cfg.szx (blkVal cfg.szx 0 true)
+    simp only []
+    split
+    · exact ⟨by rw [hfin.1]; exact hpr.1, by simp only []; rw [hfin.2]; exact hpr.2⟩
+    · exact ⟨by rw [hfin.1]; exact hpr.1, by simp only []; rw [hfin.2]; exact hpr.2⟩
+
+/-- block `j` of the download of `resp` with exponent `s` (as `createSendingMessage` cuts it) -/
+def downloadBlock (resp : Msg) (s ms j : Nat) : Msg :=
+  { resp with size2 := some resp.body.length,
+              block2 := some (blkVal s j (decide (j * sizeN s + ((resp.body.drop (j * sizeN s)).take (bufLen s ms)).length ≠ resp.body.length))),
+              body := (resp.body.drop (j * sizeN s)).take (bufLen s ms) }
+
+/-- the request for block `j` of the response, built from the request that was sent -/
+def downloadReq (req : Msg) (s j : Nat) : Msg := (nextRequest req).setBlock .b2 (blkVal s j true)
+
+/-- **responder round.** While the response is cached, the request for block `j` makes the responder emit block `j`;
+    the cached response is dropped with the last block (for response codes), kept otherwise. -/
+theorem responder_round (cfg : Cfg) (resp req : Msg) (exp now : Int) (rcv : Option Entry) (app : App) (j : Nat)
+    (hs : cfg.szx < 7) (hreq : isRequest req.code = true) (hresp : isPostPut resp.code = false) (hrc : resp.code > codeDELETE)
+    (htok : req.tok ≠ 0) (hlive : now ≤ exp)
+    (hj : j * sizeN cfg.szx ≤ resp.body.length) (hlen : resp.body.length < 4294967296) (hnum : j < 2 ^ 20) :
+    handleS cfg ⟨some ⟨resp, exp⟩, rcv⟩ now (downloadReq req cfg.szx j) app =
+      (if (j + 1) * sizeN cfg.szx < resp.body.length then ⟨some ⟨resp, exp⟩, rcv⟩ else ⟨none, rcv⟩,
+       { reply := some (downloadBlock resp cfg.szx cfg.maxSize j) }) := by
+  have hs7 : cfg.szx ≤ 7 := by omega
+  have hsz := sizeN_pos hs7
+  have hbuf : bufLen cfg.szx cfg.maxSize = sizeN cfg.szx := bufLen_small _ hs
+  have hlv : live (some ⟨resp, exp⟩) now = some ⟨resp, exp⟩ := live_fresh _ _ hlive
+  have hw : wantsToBeReceived (downloadReq req cfg.szx j) = false := by
+    have h1 : (downloadReq req cfg.szx j).block1 = none := rfl
+    have h2 : (downloadReq req cfg.szx j).block2 = some (blkVal cfg.szx j true) := rfl
+    have h3 : (downloadReq req cfg.szx j).code = req.code := rfl
+    unfold wantsToBeReceived
+    simp [h1, h2, h3, hreq]
+  have hsend : sendBT resp.code = .b2 := by simp [sendBT, hresp]
+  have hoff : sendOff .b2 cfg.szx j (sizeN cfg.szx) = j * sizeN cfg.szx := by
+    have : (BT.b2 == BT.b1) = false := by decide
+    simp [sendOff, this]
+  have hpaylen : ((resp.body.drop (j * sizeN cfg.szx)).take (sizeN cfg.szx)).length = min (sizeN cfg.szx) (resp.body.length - j * sizeN cfg.szx) := by
+    simp
+  have hcs : createSending resp cfg.szx cfg.maxSize (blkVal cfg.szx j true) =
+      some (downloadBlock resp cfg.szx cfg.maxSize j,
+        decide (j * sizeN cfg.szx + ((resp.body.drop (j * sizeN cfg.szx)).take (sizeN cfg.szx)).length ≠ resp.body.length)) := by
+    unfold createSending
+    rw [decode_blkVal true hs7 hnum]
+    simp only [getSzx_eq_min, Nat.min_self, hsend, hbuf, hoff]
+    unfold createSendingAt
+    have e1 : ¬ (sizeN cfg.szx > 0 ∧ j * sizeN cfg.szx > resp.body.length) := by omega
+    have e2 : ¬ resp.body.length ≥ 4294967296 := by omega
+    rw [if_neg e1, if_neg e2]
+    simp only [Nat.mul_div_cancel _ hsz]
+    rw [encode_blkVal _ hs7 hnum]
+    simp [downloadBlock, Msg.setSize, Msg.setBlock, hbuf]
+  have hblk : (downloadReq req cfg.szx j).block .b2 = some (blkVal cfg.szx j true) := rfl
+  have htok' : (downloadReq req cfg.szx j).tok = req.tok := rfl
+  unfold handleS
+  simp only []
+  split
+  · rename_i h0; exact absurd h0 htok
+  · split
+    · rename_i hl; rw [hlv] at hl; cases hl
+    · rename_i e hl
+      rw [hlv] at hl
+      injection hl with hl
+      subst hl
+      split
+      · rename_i hwr; rw [hw] at hwr; cases hwr
+      · have hc : continueSendingS cfg (some ⟨resp, exp⟩) (downloadReq req cfg.szx j) resp.code =
+            some (downloadBlock resp cfg.szx cfg.maxSize j,
+              decide (j * sizeN cfg.szx + ((resp.body.drop (j * sizeN cfg.szx)).take (sizeN cfg.szx)).length ≠ resp.body.length)) := by
+          unfold continueSendingS
+          rw [hsend, hblk]
+          exact hcs
+        split
+        · rename_i hn; rw [hc] at hn; cases hn
+        · rename_i sm more hsome
+          rw [hc] at hsome
+          injection hsome with hsome
+          injection hsome with h1 h2
+          subst h1
+          by_cases hmore : (j + 1) * sizeN cfg.szx < resp.body.length
+          · have hm : more = true := by
+              rw [← h2, hpaylen]; simp; rw [Nat.add_mul] at hmore; omega
+            have : ¬ (more = false ∧ resp.code > codeDELETE) := by rw [hm]; intro hh; cases hh.1
+            rw [if_neg this, if_pos hmore]
+          · have hm : more = false := by
+              rw [← h2, hpaylen]; simp; rw [Nat.add_mul] at hmore; omega
+            rw [if_pos ⟨hm, hrc⟩, if_neg hmore]
+
+/-- **requester round.** The requester holds exactly the first `j` blocks of the response (an unexpired entry with the
+    response's ETag) and still has its request cached; block `j` arrives.  If it does not end the body it is appended
+    and block `j+1` is requested; if it ends the body the entry is removed and the application is handed the
+    complete body, with the entry's options minus Block2/Size2. -/
+theorem requester_round (cfg : Cfg) (resp req : Msg) (sexp : Int) (ent : Entry) (now : Int) (app : App) (ms j : Nat)
+    (hs : cfg.szx < 7) (_hrq : isRequest req.code = true) (hnopp : isPostPut resp.code = false) (hnr : isRequest resp.code = false)
+    (hnsig : isSignal resp.code = false) (hncont : resp.code ≠ codeContinue) (hb1 : resp.block1 = none)
+    (htok : resp.tok ≠ 0) (hlive : now ≤ ent.validUntil) (hslive : now ≤ sexp)
+    (hheld : ent.msg.body = resp.body.take (j * sizeN cfg.szx)) (hj : j * sizeN cfg.szx ≤ resp.body.length)
+    (hetag : ent.msg.etag = resp.etag) (hnum : j + 1 < 2 ^ 20) :
+    ((j + 1) * sizeN cfg.szx < resp.body.length →
+      handleS cfg ⟨some ⟨req, sexp⟩, some ent⟩ now (downloadBlock resp cfg.szx ms j) app =
+        (⟨some ⟨req, sexp⟩, some ⟨{ ent.msg with body := resp.body.take ((j + 1) * sizeN cfg.szx) }, ent.validUntil⟩⟩,
+         { reply := some (downloadReq req cfg.szx (j + 1)) })) ∧
+    (resp.body.length ≤ (j + 1) * sizeN cfg.szx →
+      (handleS cfg ⟨some ⟨req, sexp⟩, some ent⟩ now (downloadBlock resp cfg.szx ms j) app).1.rcv = none ∧
+      (handleS cfg ⟨some ⟨req, sexp⟩, some ent⟩ now (downloadBlock resp cfg.szx ms j) app).2.delivered =
+        [{ ent.msg with body := resp.body, block2 := none, size2 := none }]) := by
+  have hs7 : cfg.szx ≤ 7 := by omega
+  have hsz := sizeN_pos hs7
+  have hbuf : bufLen cfg.szx ms = sizeN cfg.szx := bufLen_small _ hs
+  have f1 : (downloadBlock resp cfg.szx ms j).tok = resp.tok := rfl
+  have f2 : (downloadBlock resp cfg.szx ms j).code = resp.code := rfl
+  have f3 : (downloadBlock resp cfg.szx ms j).etag = resp.etag := rfl
+  have f4 : (downloadBlock resp cfg.szx ms j).block1 = none := hb1
+  have hgd : ¬ (resp.code = codeGET ∨ resp.code = codeDELETE) := by
+    intro h
+    have : isRequest resp.code = true := by rcases h with h | h <;> rw [h] <;> decide
+    rw [hnr] at this; cases this
+  have hpaylen : ((resp.body.drop (j * sizeN cfg.szx)).take (sizeN cfg.szx)).length = min (sizeN cfg.szx) (resp.body.length - j * sizeN cfg.szx) := by
+    simp
+  have hslv : live (some ⟨req, sexp⟩) now = some ⟨req, sexp⟩ := live_fresh _ _ hslive
+  have hw : wantsToBeReceived (downloadBlock resp cfg.szx ms j) = true := by
+    unfold wantsToBeReceived
+    simp [f4, f2, hnr]
+    exact hncont
+  have hshape : handleS cfg ⟨some ⟨req, sexp⟩, some ent⟩ now (downloadBlock resp cfg.szx ms j) app =
+      (let h := finishReceived cfg now (processReceived cfg ⟨some ⟨req, sexp⟩, some ent⟩ now none (downloadBlock resp cfg.szx ms j)
+          (fitSZX (downloadBlock resp cfg.szx ms j) .b2 cfg.szx) app .b2) (fitSZX (downloadBlock resp cfg.szx ms j) .b2 cfg.szx) (blkVal cfg.szx 0 true)
+       if h.failed then (h.sl, { reply := some (entityIncomplete resp.tok), delivered := h.delivered, err := true })
+       else (h.sl, { reply := h.w, delivered := h.delivered })) := by
+    unfold handleS
+    simp only [f1, if_neg htok, hslv, hw, if_true]
+    unfold handleReceived
+    have he : encodeBlock cfg.szx 0 true = .ok (blkVal cfg.szx 0 true) := encode_blkVal true hs7 (by decide)
+    simp only [he, f2, hnsig, Bool.false_eq_true, if_false, if_neg hgd, hnopp]
+  have hdecode : decodeBlock (blkVal cfg.szx j (decide (j * sizeN cfg.szx + ((resp.body.drop (j * sizeN cfg.szx)).take (bufLen cfg.szx ms)).length ≠ resp.body.length))) =
+      .ok (cfg.szx, j, decide (j * sizeN cfg.szx + ((resp.body.drop (j * sizeN cfg.szx)).take (bufLen cfg.szx ms)).length ≠ resp.body.length)) :=
+    decode_blkVal _ hs7 (by omega)
+  have hfit : fitSZX (downloadBlock resp cfg.szx ms j) .b2 cfg.szx = cfg.szx := by
+    rw [fitSZX_some (v := blkVal cfg.szx j _) cfg.szx rfl hdecode]; omega
+  have hlv : live (some ent) now = some ent := live_fresh _ _ hlive
+  have hap : applyEtag (downloadBlock resp cfg.szx ms j) ent.msg = ent.msg := by
+    rcases applyEtag_cases (downloadBlock resp cfg.szx ms j) ent.msg with ⟨h, _⟩ | ⟨_, hne, _⟩
+    · exact h
+    · exact absurd (by rw [f3, hetag]) hne
+  have hlen : ent.msg.body.length = j * sizeN cfg.szx := by rw [hheld, List.length_take]; omega
+  have habs : absorb (downloadBlock resp cfg.szx ms j) ent.msg (j * sizeN cfg.szx) =
+      ({ ent.msg with body := resp.body.take ((j + 1) * sizeN cfg.szx) }, true) := by
+    unfold absorb
+    simp only [hap, hlen, if_true]
+    have : ent.msg.body ++ (downloadBlock resp cfg.szx ms j).body = resp.body.take ((j + 1) * sizeN cfg.szx) := by
+      rw [hheld, Nat.add_mul, Nat.one_mul, List.take_add]
+      simp [downloadBlock, hbuf]
+    rw [this]
+  have hnb : ¬ (True ∧ (Option.map (fun x => x.msg) (some (⟨req, sexp⟩ : Entry))).isNone = true) := by
+    intro h; simp at h
+  constructor
+  · intro hmore
+    have hm : decide (j * sizeN cfg.szx + ((resp.body.drop (j * sizeN cfg.szx)).take (bufLen cfg.szx ms)).length ≠ resp.body.length) = true := by
+      rw [hbuf, hpaylen]; simp; rw [Nat.add_mul] at hmore; omega
+    have hblk : (downloadBlock resp cfg.szx ms j).block .b2 = some (blkVal cfg.szx j true) := by
+      show some (blkVal cfg.szx j (decide (j * sizeN cfg.szx + ((resp.body.drop (j * sizeN cfg.szx)).take (bufLen cfg.szx ms)).length ≠ resp.body.length))) = _
+      rw [hm]
+    have hheld' : (resp.body.take ((j + 1) * sizeN cfg.szx)).length / sizeN cfg.szx = j + 1 := by
+      rw [List.length_take, Nat.min_eq_left (by omega), Nat.mul_div_cancel _ hsz]
+    have hpr : processReceived cfg ⟨some ⟨req, sexp⟩, some ent⟩ now none (downloadBlock resp cfg.szx ms j) cfg.szx app .b2 =
+        { sl := ⟨some ⟨req, sexp⟩, some ⟨{ ent.msg with body := resp.body.take ((j + 1) * sizeN cfg.szx) }, ent.validUntil⟩⟩,
+          w := some (downloadReq req cfg.szx (j + 1)) } := by
+      unfold processReceived
+      simp only [f1, if_neg htok, f2, if_neg hgd, hblk, decode_blkVal true hs7 (by omega : j < 2 ^ 20), hlv, habs]
+      rw [if_neg hnb]
+      simp only [Bool.true_eq_false, and_false, if_false, getSzx_eq_min, Nat.min_self]
+      unfold blockReply
+      simp only [Option.map, hheld']
+      have hnr0 : (refusesBodylessRestart && decide (j + 1 = 0) && isPostPut req.code) = false := by simp
+      rw [hnr0]
+      simp only [Bool.false_eq_true, if_false]
+      rw [encode_blkVal true hs7 hnum]
+      rfl
+    rw [hshape, hfit, hpr]
+    unfold finishReceived
+    simp only [Bool.false_eq_true, if_false]
+    unfold startSendingS
+    have hfits : fits startDirectIsLe (downloadReq req cfg.szx (j + 1)).body.length (sizeN cfg.szx) = true := by
+      have hle : startDirectIsLe = false := rfl
+      simp [fits, hle, downloadReq, nextRequest, Msg.setBlock, hsz]
+    simp only [hfits, if_true, Bool.false_eq_true, if_false]
+  · intro hlast
+    have hm : decide (j * sizeN cfg.szx + ((resp.body.drop (j * sizeN cfg.szx)).take (bufLen cfg.szx ms)).length ≠ resp.body.length) = false := by
+      rw [hbuf, hpaylen]; simp; rw [Nat.add_mul] at hlast; omega
+    have hblk : (downloadBlock resp cfg.szx ms j).block .b2 = some (blkVal cfg.szx j false) := by
+      show some (blkVal cfg.szx j (decide (j * sizeN cfg.szx + ((resp.body.drop (j * sizeN cfg.szx)).take (bufLen cfg.szx ms)).length ≠ resp.body.length))) = _
+      rw [hm]
+    have htake : resp.body.take ((j + 1) * sizeN cfg.szx) = resp.body := List.take_of_length_le hlast
+    have hpr : (processReceived cfg ⟨some ⟨req, sexp⟩, some ent⟩ now none (downloadBlock resp cfg.szx ms j) cfg.szx app .b2).sl.rcv = none ∧
+        (processReceived cfg ⟨some ⟨req, sexp⟩, some ent⟩ now none (downloadBlock resp cfg.szx ms j) cfg.szx app .b2).delivered =
+          [{ ent.msg with body := resp.body, block2 := none, size2 := none }] := by
+      unfold processReceived
+      simp only [f1, if_neg htok, f2, if_neg hgd, hblk, decode_blkVal false hs7 (by omega : j < 2 ^ 20), hlv, habs]
+      rw [if_neg hnb]
+      simp only [and_self, if_true, htake]
+      simp [Msg.removeBlockSize]
+    rw [hshape, hfit]
+    have hfin := finishReceived_rcv cfg now (processReceived cfg ⟨some ⟨req, sexp⟩, some ent⟩ now none (downloadBlock resp cfg.szx ms j) cfg.szx app .b2)
+      cfg.szx (blkVal cfg.szx 0 true)
+    simp only []
+    split
+    · exact ⟨by rw [hfin.1]; exact hpr.1, by simp only []; rw [hfin.2]; exact hpr.2⟩
+    · exact ⟨by rw [hfin.1]; exact hpr.1, by simp only []; rw [hfin.2]; exact hpr.2⟩
+
+
 end CoapVerif.Lemmas.Blockwise
